@@ -15,6 +15,12 @@ def C(pkg, quick, thorough, technique, note, level_text=EXPL, **kw):
     return d
 
 CHECKS = {
+    "C06": C("c06", dict(checks=5000, shards=2, timeout=300), dict(checks=50000, shards=16, timeout=3000),
+             "property-based testing (rapid): generated indices, query trees and Next/Advance call scripts on three index back ends compared with a set-algebra denotation and a sorted-slice iterator model",
+             "Trusted: the set denotation and position model in harness/c06. The empty intersection (which would denote the universe and indexes iterators[0]) is outside the domain; scripts stop at the first false result because behaviour after exhaustion differs between back ends and is unspecified."),
+    "C08": C("c08", dict(checks=3000, shards=2, timeout=300), dict(checks=20000, shards=16, timeout=3000),
+             "property-based testing (rapid): generated ID lists and Next/Advance scripts on compact.Iterator compared with a sorted-slice + position reference model",
+             "Trusted: the sorted-slice model; Advance targets are restricted to namespaces in the namespace table (NamespaceTable.Encode panics otherwise, as in every caller); after a failed Advance a positioned iterator is expected to be unmoved (asserted by the repository's own ValidatePostingListIteratorAdvanceBeyondEnd)."),
     "C09": C("c09", dict(checks=2000, shards=2, timeout=300), dict(checks=40000, shards=16, timeout=3000),
              "property-based testing (rapid): generated values, reservation/write orders and map layouts round-tripped through the encoding containers and compared with list/multiset reference models",
              "Trusted: the multiset model of the hash map (entries of one ID compared as a multiset, FindFirst = first entry written single-threaded); domain = tags < 2^tagBits, fixed widths >= Uint64Length(v)."),
